@@ -116,10 +116,16 @@ def prepare(variant):
         old = open(dst).read() if os.path.exists(dst) else None
         if old != text:
             open(dst, "w").write(text)
+        # keep the source file's mtime: cargo then rebuilds the copy exactly
+        # when the file under /repo/src changed
+        st = os.stat(p)
+        os.utime(dst, (st.st_atime, st.st_mtime))
     emul = open(os.path.join(HARNESS, "emul", "verif_emul.rs")).read()
     dst = os.path.join(src, "verif_emul.rs")
     if not os.path.exists(dst) or open(dst).read() != emul:
         open(dst, "w").write(emul)
+    st = os.stat(os.path.join(HARNESS, "emul", "verif_emul.rs"))
+    os.utime(dst, (st.st_atime, st.st_mtime))
     for key in ("target_arch", "target_feature", "target_feature_attr", "core_arch"):
         if counts.get(key, 0) == 0:
             raise MachineryError("arch copy: rewrite rule %s matched nothing" % key)
@@ -142,6 +148,7 @@ def prepare(variant):
         os.makedirs(os.path.dirname(p), exist_ok=True)
         if not os.path.exists(p) or open(p).read() != content:
             open(p, "w").write(content)
+        os.utime(p, (st.st_atime, st.st_mtime))
     lockfile = os.path.join(root, "Cargo.lock")
     if not os.path.exists(lockfile):
         shutil.copy(os.path.join(HARNESS, "Cargo.lock"), lockfile)
